@@ -14,6 +14,7 @@ import (
 	"path/filepath"
 	"strings"
 	"sync"
+	"unicode/utf8"
 
 	"github.com/pion/rtp"
 	"github.com/pion/webrtc/v4/pkg/media/oggreader"
@@ -27,6 +28,7 @@ import (
 // suite "write": random configurations and packet sequences.
 // suite "read":  OggReader over truncated / corrupted files.
 // suite "toc":   all 256 TOC bytes x frame-count bytes through the writer.
+// suite "cfg":   NewTrack on accepted and refused configurations.
 
 type c33Comment struct {
 	Name  string `json:"n"`
@@ -65,7 +67,11 @@ type c33Case struct {
 	WComments []c33Comment `json:"wcomments,omitempty"` // writer-level WithUserComments
 	Tracks    []c33Track   `json:"tracks"`
 	Ops       []c33Op      `json:"ops"`
-	Note      string       `json:"note,omitempty"`
+	// Reuse: every packet is handed to WriteRTP out of ONE receive buffer
+	// (marshalled into it, rtp.Packet.Unmarshal makes Payload a sub-slice) and
+	// the whole buffer is overwritten as soon as WriteRTP has returned.
+	Reuse bool   `json:"reuse,omitempty"`
+	Note  string `json:"note,omitempty"`
 }
 
 func (o c33Op) payload() []byte {
@@ -165,9 +171,7 @@ type c33Written struct {
 
 func c33Write(c c33Case) c33Written {
 	var res c33Written
-	mkPkt := func(ssrc uint32, p []byte) *rtp.Packet {
-		return &rtp.Packet{Header: rtp.Header{Version: 2, SSRC: ssrc}, Payload: p}
-	}
+	feeder := &mfFeeder{reuse: c.Reuse} // mediafeed_util.go
 	status := func(err error) {
 		if err != nil {
 			res.statuses = append(res.statuses, 1)
@@ -190,7 +194,7 @@ func c33Write(c c33Case) c33Written {
 				return res
 			}
 			for _, op := range c.Ops {
-				status(w.WriteRTP(mkPkt(t.SSRC, op.payload())))
+				status(feeder.feed(w.WriteRTP, rtp.Header{Version: 2, SSRC: t.SSRC}, op.payload()))
 			}
 			if err := w.Close(); err != nil {
 				res.err = "close: " + err.Error()
@@ -205,7 +209,7 @@ func c33Write(c c33Case) c33Written {
 			return res
 		}
 		for _, op := range c.Ops {
-			status(w.WriteRTP(mkPkt(t.SSRC, op.payload())))
+			status(feeder.feed(w.WriteRTP, rtp.Header{Version: 2, SSRC: t.SSRC}, op.payload()))
 		}
 		if err := w.Close(); err != nil {
 			res.err = "close: " + err.Error()
@@ -255,7 +259,7 @@ func c33Write(c c33Case) c33Written {
 		tracks[i] = tr
 	}
 	for _, op := range c.Ops {
-		status(tracks[op.Track].WriteRTP(mkPkt(c.Tracks[op.Track].SSRC, op.payload())))
+		status(feeder.feed(tracks[op.Track].WriteRTP, rtp.Header{Version: 2, SSRC: c.Tracks[op.Track].SSRC}, op.payload()))
 	}
 	if err := w.Close(); err != nil {
 		res.err = "close: " + err.Error()
@@ -569,6 +573,13 @@ func c33Variant(c c33Case) string {
 	return a + "-" + b
 }
 
+func c33Feed(c c33Case) string {
+	if c.Reuse {
+		return "reused-buffer"
+	}
+	return "fresh-payloads"
+}
+
 func c33Run(c c33Case) (V, Verdict) {
 	w := c33Write(c)
 	if w.err != "" {
@@ -788,7 +799,7 @@ func c33Run(c c33Case) (V, Verdict) {
 	if bigPkt {
 		size = "multipage"
 	}
-	v := Pass(fmt.Sprintf("%s/tracks%d/%s/pkts%s", variant, len(tracks), size, c32Bucket33(accepted)),
+	v := Pass(fmt.Sprintf("%s/%s/tracks%d/%s/pkts%s", variant, c33Feed(c), len(tracks), size, c32Bucket33(accepted)),
 		accepted >= 1 && (len(tracks) >= 2 || bigPkt || accepted >= 3))
 	return obs, v
 }
@@ -1034,6 +1045,10 @@ func c33GenVariant(r *Rand, i int, multi, seekable bool) c33Case {
 		c.Tracks[0].VGenLen, c.Tracks[0].VSeed = Pick(r, []int{255*255 - 16, 255*255 - 15, 66000}), byte(r.Range(1, 25))
 		c.Note = "multi-page comment header"
 	}
+	// packet feeding: a rewritable output makes Close rebuild each stream's last
+	// page from what the writer remembered, so every seekable case goes through
+	// the reused receive buffer; half of the others do as well
+	c.Reuse = seekable || r.Bool()
 	return c
 }
 
@@ -1068,6 +1083,19 @@ func c33Corpus() []c33Case {
 		{ID: 7, Multi: false, Seekable: false, Tracks: []c33Track{one}, Ops: []c33Op{{GenLen: 255, Toc: 0x78, Seed: 3}, {GenLen: 510, Toc: 0x78, Seed: 5}}},
 		{ID: 8, Multi: true, Seekable: true, Tracks: []c33Track{first}, Ops: []c33Op{{GenLen: 255 * 255, Toc: 0x78, Seed: 3}}},
 		{ID: 9, Multi: true, Seekable: false, Tracks: []c33Track{first, two}, Ops: []c33Op{{GenLen: 2 * 255 * 255, Toc: 0x78, Seed: 9}, pk(1, "7801")}},
+		// receive loop over one buffer (all tracks share it); the rewritable
+		// variants rebuild every stream's last page in Close, after the buffer has
+		// been overwritten / has served the other track
+		{ID: 10, Multi: false, Seekable: true, Reuse: true, Tracks: []c33Track{one}, Note: "receive-loop",
+			Ops: []c33Op{pk(0, "9810101010"), pk(0, "9811111111"), pk(0, "9812121212"), pk(0, "9813131313"), pk(0, "9814141414")}},
+		{ID: 11, Multi: true, Seekable: true, Reuse: true, Tracks: []c33Track{first, two}, Note: "receive-loop-two-tracks",
+			Ops: []c33Op{pk(0, "98202020"), pk(1, "98606060"), pk(0, "98212121"), pk(1, "98616161"), pk(0, "98222222"), pk(1, "98626262"), pk(0, "98232323")}},
+		{ID: 12, Multi: true, Seekable: true, Reuse: true, Tracks: []c33Track{first, two}, Note: "receive-loop-multipage-last-packet",
+			Ops: []c33Op{pk(1, "7801"), {GenLen: 255*255 + 300, Toc: 0x78, Seed: 7}, pk(1, "7802")}},
+		{ID: 13, Multi: false, Seekable: false, Reuse: true, Tracks: []c33Track{one}, Note: "receive-loop-plain",
+			Ops: []c33Op{pk(0, "9810101010"), pk(0, ""), pk(0, "9811111111")}},
+		{ID: 14, Multi: true, Seekable: false, Reuse: true, Tracks: []c33Track{first, two}, Note: "receive-loop-plain-two-tracks",
+			Ops: []c33Op{pk(0, "98202020"), pk(1, "98606060"), {Track: 1, GenLen: 600, Toc: 0x78, Seed: 11}, pk(0, "98212121")}},
 	}
 }
 
@@ -1215,7 +1243,434 @@ func c33TocRun(toc int) (V, Verdict) {
 	return VHex(obs), Pass(fmt.Sprintf("code%d", toc&3), true)
 }
 
+// ---------------- suite "cfg": what NewTrack accepts ----------------
+//
+// A sequence of NewTrack calls on one multi-track writer (plain output), then
+// Close without a packet.  The model side is new_track_checked / add_tracks
+// (validateChannelMapping, defaultChannelMapping, validateOpusTags, duplicate
+// SSRC / serial); byte strings are hex because vendors and values may be
+// malformed UTF-8.
+
+type c33CfgComment struct {
+	Name  string `json:"n"` // hex
+	Value string `json:"v"` // hex
+}
+
+type c33CfgTrack struct {
+	SSRC     uint32          `json:"ssrc"`
+	Serial   uint32          `json:"serial"`
+	Rate     uint32          `json:"rate"`
+	Family   uint8           `json:"family"`   // 0: WithChannelCount(Channels), else WithChannelMapping
+	Channels uint16          `json:"channels"` // family 0 only
+	Streams  uint8           `json:"streams"`
+	Coupled  uint8           `json:"coupled"`
+	Mapping  string          `json:"mapping,omitempty"` // hex
+	Vendor   string          `json:"vendor,omitempty"`  // hex
+	Comments []c33CfgComment `json:"comments,omitempty"`
+}
+
+type c33Cfg struct {
+	Tracks []c33CfgTrack `json:"tracks"`
+	Note   string        `json:"note,omitempty"`
+}
+
+func c33Unhex(s string) []byte { b, _ := hex.DecodeString(s); return b }
+
+func c33CfgClass(err error) byte {
+	if err == nil {
+		return 0
+	}
+	s := err.Error()
+	switch {
+	case strings.HasPrefix(s, "invalid channel count"):
+		return 1
+	case strings.HasPrefix(s, "invalid channel mapping"):
+		return 2
+	case strings.HasPrefix(s, "invalid OpusTags"):
+		return 3
+	case s == "duplicate Ogg track SSRC":
+		return 4
+	case s == "duplicate Ogg track serial":
+		return 5
+	}
+	return 9
+}
+
+// Vorbis comment field names: 0x20..0x7D without '=' (and not empty)
+func c33NameOK(name []byte) bool {
+	if len(name) == 0 {
+		return false
+	}
+	for _, b := range name {
+		if b < 0x20 || b > 0x7d || b == '=' {
+			return false
+		}
+	}
+	return true
+}
+
+// the rule book, restated: RFC 7845 section 5.1.1 (mapping table entries index a
+// decoded channel or are 255, coupled <= streams, 1..255 channels, family 0 is
+// mono or stereo, family 1 in Vorbis order) narrowed to what the doc comment of
+// WithChannelMapping promises (one stream only; family 1 therefore mono/stereo,
+// family 2 zero-order ambisonics without the non-diegetic pair), RFC 7845
+// section 5.2 / Vorbis comments (UTF-8 vendor and values, field names 0x20..0x7D
+// without '='), and one SSRC / one serial per track.  "" = must be accepted.
+func c33CfgReason(t c33CfgTrack, ssrcs, serials map[uint32]bool) string {
+	if ssrcs[t.SSRC] {
+		return "duplicate-ssrc"
+	}
+	m := c33Unhex(t.Mapping)
+	switch t.Family {
+	case 0:
+		if t.Channels != 1 && t.Channels != 2 {
+			return "invalid-channel-count"
+		}
+	case 1, 2, 255:
+		if len(m) == 0 || len(m) > 255 {
+			return "invalid-channel-count"
+		}
+		if t.Streams != 1 || t.Coupled > t.Streams {
+			return "invalid-channel-mapping"
+		}
+		for _, ch := range m {
+			if ch != 255 && int(ch) >= int(t.Streams)+int(t.Coupled) {
+				return "invalid-channel-mapping"
+			}
+		}
+		if t.Family == 1 && !(len(m) == 1 && t.Coupled == 0 && m[0] == 0) &&
+			!(len(m) == 2 && t.Coupled == 1 && m[0] == 0 && m[1] == 1) {
+			return "invalid-channel-mapping"
+		}
+		if t.Family == 2 && !(len(m) == 1 && t.Coupled == 0 && m[0] == 0) {
+			return "invalid-channel-mapping"
+		}
+	default:
+		return "invalid-channel-mapping"
+	}
+	if !utf8.Valid(c33Unhex(t.Vendor)) {
+		return "invalid-opustags"
+	}
+	for _, c := range t.Comments {
+		if !c33NameOK(c33Unhex(c.Name)) || !utf8.Valid(c33Unhex(c.Value)) {
+			return "invalid-opustags"
+		}
+	}
+	if serials[t.Serial] {
+		return "duplicate-serial"
+	}
+	return ""
+}
+
+func (t c33CfgTrack) asTrack() c33Track {
+	out := c33Track{SSRC: t.SSRC, Serial: t.Serial, Rate: t.Rate, Family: t.Family, Streams: t.Streams, Coupled: t.Coupled}
+	if t.Family == 0 {
+		out.Channels, out.Streams, out.Coupled = byte(t.Channels), 1, byte(t.Channels-1)
+	} else {
+		out.Mapping = c33Unhex(t.Mapping)
+		out.Channels = byte(len(out.Mapping))
+	}
+	return out
+}
+
+func c33CfgRun(c c33Cfg) (V, Verdict) {
+	out := &c33Plain{}
+	w, err := oggwriter.NewWriter(out)
+	if err != nil {
+		panic(err)
+	}
+	classes := make([]byte, len(c.Tracks))
+	for i, t := range c.Tracks {
+		opts := []oggwriter.TrackOption{oggwriter.WithSerial(t.Serial), oggwriter.WithSampleRate(t.Rate)}
+		if t.Family == 0 {
+			opts = append(opts, oggwriter.WithChannelCount(t.Channels))
+		} else {
+			opts = append(opts, oggwriter.WithChannelMapping(t.Family, t.Streams, t.Coupled, c33Unhex(t.Mapping)))
+		}
+		opts = append(opts, oggwriter.WithVendor(string(c33Unhex(t.Vendor))))
+		if len(t.Comments) > 0 {
+			ucs := make([]oggwriter.UserComment, len(t.Comments))
+			for k, cm := range t.Comments {
+				ucs[k] = oggwriter.UserComment{Comment: string(c33Unhex(cm.Name)), Value: string(c33Unhex(cm.Value))}
+			}
+			opts = append(opts, oggwriter.WithUserComments(ucs...))
+		}
+		_, err := w.NewTrack(t.SSRC, opts...)
+		classes[i] = c33CfgClass(err)
+	}
+	closeErr := w.Close()
+	obs := VL{VHex(classes), VHex(c33PagesDigest(out.b)), VHex(c33ReadAll(out.b, true).obs())}
+
+	// ---------- direct oracle ----------
+	ssrcs, serials := map[uint32]bool{}, map[uint32]bool{}
+	var acc []c33CfgTrack
+	nref := 0
+	for i, t := range c.Tracks {
+		reason := c33CfgReason(t, ssrcs, serials)
+		switch {
+		case reason == "" && classes[i] != 0:
+			return obs, Fail("valid-configuration-refused", fmt.Sprintf("track %d: refused with class %d", i, classes[i]))
+		case reason != "" && classes[i] == 0:
+			return obs, Fail(reason+"-accepted", fmt.Sprintf("track %d", i))
+		}
+		if classes[i] == 0 {
+			ssrcs[t.SSRC], serials[t.Serial] = true, true
+			acc = append(acc, t)
+		} else {
+			nref++
+		}
+	}
+	if closeErr != nil {
+		return obs, Fail("close-error", closeErr.Error())
+	}
+	// the closed file: BOS pages of the accepted tracks in order with their
+	// OpusHead, then their OpusTags, then one nil EOS page each; nothing else
+	pages, bad := c33Walk(out.b)
+	if bad != "" {
+		return obs, Fail(bad, fmt.Sprintf("after %d pages", len(pages)))
+	}
+	if len(pages) != 3*len(acc) {
+		return obs, Fail("page-count-differs-from-accepted-tracks", fmt.Sprintf("%d pages for %d accepted tracks", len(pages), len(acc)))
+	}
+	for k, t := range acc {
+		id, tg, eos := pages[k], pages[len(acc)+k], pages[2*len(acc)+k]
+		if id.serial != t.Serial || id.htype != 2 || id.index != 0 || id.granule != 0 {
+			return obs, Fail("bos-pages-not-grouped-at-start", fmt.Sprintf("page %d: serial %d type %#x", k, id.serial, id.htype))
+		}
+		if !bytes.Equal(id.payload, c33OpusHead(t.asTrack())) {
+			return obs, Fail("opushead-differs-from-accepted-configuration", fmt.Sprintf("track serial %d: %x", t.Serial, id.payload))
+		}
+		var cs []c33Comment
+		for _, cm := range t.Comments {
+			cs = append(cs, c33Comment{string(c33Unhex(cm.Name)), string(c33Unhex(cm.Value))})
+		}
+		if tg.serial != t.Serial || tg.htype != 0 || tg.index != 1 || !bytes.Equal(tg.payload, c33OpusTags(string(c33Unhex(t.Vendor)), cs)) {
+			return obs, Fail("opustags-differ-from-accepted-configuration", fmt.Sprintf("track serial %d", t.Serial))
+		}
+		if eos.serial != t.Serial || eos.htype != 4 || eos.index != 2 || len(eos.payload) != 0 {
+			return obs, Fail("last-page-without-eos-multi-plain", fmt.Sprintf("track serial %d: type %#x", t.Serial, eos.htype))
+		}
+		h, err := oggreader.ParseOpusHead(id.payload)
+		if err != nil || !bytes.Equal(c33HeadObs(h, nil), c33HeadObs(c33WantHead(t.asTrack()), nil)) {
+			return obs, Fail("parsed-opushead-differs-from-configuration", fmt.Sprintf("track serial %d: %v", t.Serial, err))
+		}
+	}
+	return obs, Pass(fmt.Sprintf("accepted%s/refused%s", c32Bucket33(len(acc)), c32Bucket33(nref)), len(acc) >= 1 && nref >= 1)
+}
+
+func c33CfgCoq(c c33Cfg) string {
+	if len(c.Tracks) > 255 {
+		return ""
+	}
+	b := []byte{byte(len(c.Tracks))}
+	for _, t := range c.Tracks {
+		m, v := c33Unhex(t.Mapping), c33Unhex(t.Vendor)
+		if len(m) > 0xffff || len(v) > 0xffff || len(t.Comments) > 0xffff {
+			return ""
+		}
+		b = binary.BigEndian.AppendUint32(b, t.SSRC)
+		b = binary.BigEndian.AppendUint32(b, t.Serial)
+		b = binary.BigEndian.AppendUint32(b, t.Rate)
+		b = append(b, t.Family)
+		b = binary.BigEndian.AppendUint16(b, t.Channels)
+		b = append(b, t.Streams, t.Coupled)
+		b = binary.BigEndian.AppendUint16(b, uint16(len(m)))
+		b = append(b, m...)
+		b = binary.BigEndian.AppendUint16(b, uint16(len(v)))
+		b = append(b, v...)
+		b = binary.BigEndian.AppendUint16(b, uint16(len(t.Comments)))
+		for _, cm := range t.Comments {
+			n, val := c33Unhex(cm.Name), c33Unhex(cm.Value)
+			if len(n) > 0xffff || len(val) > 0xffff {
+				return ""
+			}
+			b = binary.BigEndian.AppendUint16(b, uint16(len(n)))
+			b = append(b, n...)
+			b = binary.BigEndian.AppendUint16(b, uint16(len(val)))
+			b = append(b, val...)
+		}
+	}
+	return CoqHex(b)
+}
+
+// malformed and borderline UTF-8 (Unicode table 3-7)
+var c33BadUTF8 = []string{"80", "bf", "c0", "c080", "c1bf", "c2", "c220", "e0", "e080", "e08080", "e09fbf", "eda080", "edbfbf",
+	"e282", "e28220", "f0", "f08080", "f0808080", "f08fbfbf", "f4908080", "f5808080", "f8", "ff", "f09f98", "41c3"}
+var c33GoodUTF8 = []string{"", "41", "c280", "dfbf", "e0a080", "ed9fbf", "ee8080", "efbfbf", "f0908080", "f48fbfbf", "e282ac", "f09f9880",
+	"70696f6e", "c3bc6ec3af63c3b864c3a9", "e697a5e69cace8aa9e", "00", "7f"}
+
+func c33CfgGenText(r *Rand, bad bool) string {
+	if bad {
+		return hex.EncodeToString(r.Bytes(r.Intn(3))) + Pick(r, c33BadUTF8) + Pick(r, []string{"", "41", "e282ac"})
+	}
+	s := ""
+	for n := r.Intn(4); n > 0; n-- {
+		s += Pick(r, c33GoodUTF8)
+	}
+	return s
+}
+
+func c33CfgGenName(r *Rand, bad bool) string {
+	if bad {
+		return Pick(r, []string{"", "3d", "413d42", "1f", "7e", "7f", "80", "410a", "c3a9", "ff", "00"})
+	}
+	return hex.EncodeToString([]byte(c33Name(r)))
+}
+
+func c33CfgGenTrack(r *Rand, k int, prev []c33CfgTrack) c33CfgTrack {
+	t := c33CfgTrack{SSRC: uint32(5000 + k), Serial: uint32(r.U64()), Rate: Pick(r, []uint32{48000, 44100, 8000, uint32(r.U64())})}
+	// a configuration that must be accepted
+	switch r.Intn(6) {
+	case 0, 1:
+		t.Family, t.Channels = 0, uint16(r.Range(1, 2))
+	case 2:
+		if r.Bool() {
+			t.Family, t.Streams, t.Coupled, t.Mapping = 1, 1, 0, "00"
+		} else {
+			t.Family, t.Streams, t.Coupled, t.Mapping = 1, 1, 1, "0001"
+		}
+	case 3:
+		t.Family, t.Streams, t.Coupled, t.Mapping = 2, 1, 0, "00"
+	default:
+		t.Family, t.Streams, t.Coupled = 255, 1, byte(r.Intn(2))
+		n := r.Range(1, 8)
+		if r.Chance(1, 10) {
+			n = Pick(r, []int{254, 255})
+		}
+		m := make([]byte, n)
+		for i := range m {
+			m[i] = Pick(r, []byte{0, 255, t.Coupled})
+		}
+		t.Mapping = hex.EncodeToString(m)
+	}
+	t.Vendor = c33CfgGenText(r, false)
+	for n := r.Intn(3); n > 0; n-- {
+		t.Comments = append(t.Comments, c33CfgComment{c33CfgGenName(r, false), c33CfgGenText(r, false)})
+	}
+	if r.Chance(11, 20) {
+		return t
+	}
+	// one thing wrong
+	switch r.Intn(13) {
+	case 0:
+		t.Family, t.Channels = 0, Pick(r, []uint16{0, 3, 8, 255, 256, 257, 65535})
+	case 1:
+		t.Family = Pick(r, []uint8{3, 4, 127, 254})
+		if t.Mapping == "" {
+			t.Streams, t.Mapping = 1, "00"
+		}
+	case 2:
+		if t.Family == 0 {
+			t.Family, t.Coupled = 255, 0
+		}
+		t.Streams = Pick(r, []uint8{0, 2, 3, 255})
+		t.Mapping = "00"
+	case 3:
+		if t.Family == 0 {
+			t.Family = 255
+		}
+		t.Streams, t.Coupled, t.Mapping = 1, Pick(r, []uint8{2, 3, 255}), "0001"
+	case 4: // an entry that indexes no decoded channel
+		t.Family, t.Streams, t.Coupled = 255, 1, byte(r.Intn(2))
+		t.Mapping = hex.EncodeToString([]byte{0, 1 + t.Coupled, 255})
+	case 5:
+		if t.Family == 0 {
+			t.Family, t.Streams = 255, 1
+		}
+		t.Mapping = ""
+	case 6:
+		t.Family, t.Streams, t.Coupled = 255, 1, 1
+		t.Mapping = strings.Repeat("00", Pick(r, []int{256, 257, 300}))
+	case 7: // family 1 / 2 with a layout that needs more streams or another order
+		t.Family, t.Streams, t.Coupled = uint8(r.Range(1, 2)), 1, byte(r.Intn(2))
+		t.Mapping = Pick(r, []string{"0100", "000102", "01", "0000", "00ff", "ff", "0001ff"})
+	case 8:
+		t.Vendor = c33CfgGenText(r, true)
+	case 9:
+		t.Comments = append(t.Comments, c33CfgComment{c33CfgGenName(r, false), c33CfgGenText(r, true)})
+	case 10:
+		t.Comments = append(t.Comments, c33CfgComment{c33CfgGenName(r, true), c33CfgGenText(r, false)})
+	case 11:
+		if len(prev) > 0 {
+			t.SSRC = Pick(r, prev).SSRC
+		}
+	default:
+		if len(prev) > 0 {
+			t.Serial = Pick(r, prev).Serial
+		}
+	}
+	return t
+}
+
+func c33CfgGen(r *Rand, _ int) c33Cfg {
+	var c c33Cfg
+	for k, n := 0, r.Range(1, 5); k < n; k++ {
+		c.Tracks = append(c.Tracks, c33CfgGenTrack(r, k, c.Tracks))
+	}
+	return c
+}
+
+func c33CfgShrink(c c33Cfg) []c33Cfg {
+	var out []c33Cfg
+	for i := range c.Tracks {
+		out = append(out, c33Cfg{Tracks: append(append([]c33CfgTrack{}, c.Tracks[:i]...), c.Tracks[i+1:]...), Note: c.Note})
+	}
+	return out
+}
+
+// finite slices, enumerated completely: the channel-mapping grid, every byte
+// as a one-byte comment name and inside a name, the UTF-8 table
+func c33CfgExhaustive() []c33Cfg {
+	var out []c33Cfg
+	one := func(t c33CfgTrack, note string) {
+		t.SSRC, t.Serial, t.Rate = 1, 1, 48000
+		out = append(out, c33Cfg{Tracks: []c33CfgTrack{t}, Note: note})
+	}
+	for _, fam := range []uint8{0, 1, 2, 3, 254, 255} {
+		for _, streams := range []uint8{0, 1, 2} {
+			for _, coupled := range []uint8{0, 1, 2} {
+				for _, m := range []string{"", "00", "01", "0001", "0100", "00ff", "02", "0001ff", "000102", "ff"} {
+					if fam == 0 {
+						if streams == 0 && coupled == 0 { // family 0 ignores the rest: the channel counts once
+							for _, ch := range []uint16{0, 1, 2, 3} {
+								one(c33CfgTrack{Family: 0, Channels: ch, Vendor: "70"}, "grid")
+							}
+						}
+						continue
+					}
+					one(c33CfgTrack{Family: fam, Streams: streams, Coupled: coupled, Mapping: m, Vendor: "70"}, "grid")
+				}
+			}
+		}
+	}
+	for b := 0; b < 256; b++ {
+		one(c33CfgTrack{Family: 0, Channels: 2, Vendor: "70", Comments: []c33CfgComment{{fmt.Sprintf("%02x", b), "76"}}}, "name-byte")
+		one(c33CfgTrack{Family: 0, Channels: 2, Vendor: "70", Comments: []c33CfgComment{{fmt.Sprintf("41%02x42", b), ""}}}, "name-byte-inside")
+	}
+	for _, u := range append(append([]string{}, c33BadUTF8...), c33GoodUTF8...) {
+		one(c33CfgTrack{Family: 0, Channels: 1, Vendor: u}, "utf8-vendor")
+		one(c33CfgTrack{Family: 0, Channels: 1, Vendor: "70", Comments: []c33CfgComment{{"41", "78" + u}}}, "utf8-value")
+	}
+	// duplicates: refused, and a refused track registers nothing
+	a := c33CfgTrack{SSRC: 1, Serial: 10, Rate: 48000, Family: 0, Channels: 2, Vendor: "70"}
+	sameSerial, sameSSRC, bad, afterBad := a, a, a, a
+	sameSerial.SSRC = 2
+	sameSSRC.Serial = 11
+	bad.SSRC, bad.Serial, bad.Channels = 3, 12, 3
+	afterBad.SSRC, afterBad.Serial = 3, 12
+	out = append(out, c33Cfg{Tracks: []c33CfgTrack{a, sameSerial, sameSSRC, bad, afterBad}, Note: "duplicates"})
+	out = append(out, c33Cfg{Note: "no tracks"})
+	return out
+}
+
 func init() {
+	Register(Spec[c33Cfg]{
+		ID: "C33", Suite: "cfg", CoqImports: []string{"Check.C33"},
+		CoqType: "string", CoqRun: "Check.C33.run_cfg",
+		Quick: 300, Thorough: 6000, Parallel: 8,
+		Corpus: c33CfgExhaustive,
+		Gen:    c33CfgGen, Run: c33CfgRun, Coq: c33CfgCoq, Shrink: c33CfgShrink,
+	})
 	for _, v := range []struct {
 		name            string
 		multi, seekable bool
